@@ -28,7 +28,10 @@ func ToMultiAlign(samIn io.Reader, out io.Writer, wrap int, trimstart int, trime
 
 	go groupSamRecords(samIn, cSH, cSR, cReadDone, cErr)
 
-	header := <-cSH
+	header, err := getSamHeader(cSH, cErr)
+	if err != nil {
+		return err
+	}
 	refLen := header.Refs()[0].Len()
 
 	trimstart, trimend, trim, err := checkArgs(refLen, trimstart, trimend)
